@@ -194,8 +194,8 @@ impl<'a> Gen<'a> {
         let call = self.call_def(&rcx, target, (size / 4).max(2));
         let rest = (size * 2 / 3).max(2);
         let rec = if self.cfg.effect_sequenced && self.is_codata(&tret) {
-            if tret == ret { call } else { let r = self.term(&rcx, &ret, rest); Tm::If { cmp: Cmp::Eq, fst: bx(Tm::Var(fuel.clone())), snd: Some(bx(Tm::Lit(1))), zero_left: false, thn: bx(r.clone()), els: bx(r) } }
-        } else if tret == ret && self.rng.chance(1, 4) {
+            if tret == ret { call } else { self.term(&rcx, &ret, rest) }
+        } else if tret == ret && !self.cfg.effect_sequenced && self.rng.chance(1, 4) {
             match &ret { Ty::Int => Tm::Op(bx(self.term(&self.arg_cx(&rcx), &Ty::Int, 2)), BinOp::Add, bx(call)), _ => call }
         } else {
             let r = self.binder(&rcx, &tret, false, BK::Let, &[]);
@@ -213,13 +213,29 @@ impl<'a> Gen<'a> {
         if self.cfg.prints && self.rng.chance(1, 5) { self.feat("println_i64"); Tm::Print(true, f(), bx(t)) } else { t }
     }
 
+    fn fresh(&mut self, base: &str) -> String {
+        loop {
+            self.st.ctr += 1;
+            let n = format!("{base}{}", self.st.ctr);
+            if !self.st.used.contains(&n) && !is_keyword(&n) { self.st.used.insert(n.clone()); return n; }
+        }
+    }
+
+    /// The real checker does not instantiate some expected types before checking a term against
+    /// them (see corpus/genfun/checker_instance_order_*.sc).  Mention the type in a `let` first.
     fn wrap_for_checker(&mut self, ccx: &Cx, ret: &Ty, b: Tm) -> Tm {
         if self.preinstantiated(ret) { return b; }
-        if self.cfg.avoid_instance_order_bug {
-            self.feat("let_wrapped_for_checker_instance_order");
-            let v = self.binder(ccx, ret, false, BK::Let, &[]);
-            Tm::Let(v.clone(), ret.clone(), bx(b), bx(Tm::Var(v)))
-        } else { self.feat("expected_type_maybe_uninstantiated"); b }
+        if !self.cfg.avoid_instance_order_bug { self.feat("expected_type_maybe_uninstantiated"); return b; }
+        self.feat("let_wrapped_for_checker_instance_order");
+        if self.cfg.effect_sequenced && self.is_codata(ret) {
+            // keep codata-typed bindings pure: bind a pure dummy of that type in front
+            let u = self.fresh("inst");
+            let mut pcx = self.arg_cx(ccx); pcx.pure = true;
+            let dummy = self.leaf(&pcx, ret);
+            return Tm::Let(u, ret.clone(), bx(dummy), bx(b));
+        }
+        let v = self.binder(ccx, ret, false, BK::Let, &[]);
+        Tm::Let(v.clone(), ret.clone(), bx(b), bx(Tm::Var(v)))
     }
 
     fn gen_corec_body(&mut self, cx: &Cx, idx: usize, size: usize) -> Tm {
@@ -229,6 +245,7 @@ impl<'a> Gen<'a> {
         let s = self.split(size.max(xs.len() + 1) - 1, xs.len());
         let mut clauses = Vec::new();
         self.feat("new");
+        self.inst_stack.push(ty.clone());
         for (i, x) in xs.iter().enumerate() {
             let mut ccx = self.closure_cx(cx);
             let mut binders: Vec<String> = Vec::new();
@@ -246,6 +263,7 @@ impl<'a> Gen<'a> {
             } else { let b = self.term(&ccx, &ret, s[i]); self.wrap_for_checker(&ccx, &ret, b) };
             clauses.push(Clause { xtor: x.name.clone(), binders, body });
         }
+        self.inst_stack.pop();
         Tm::New(clauses)
     }
 
@@ -273,6 +291,7 @@ impl<'a> Gen<'a> {
         let saved = std::mem::replace(&mut self.st, st);
         let cx = self.top_cx(idx);
         let mut clauses = Vec::new();
+        let saved_stack = std::mem::replace(&mut self.inst_stack, vec![ty.clone()]);
         for x in self.xtors(ty) {
             let mut ccx = self.closure_cx(&cx);
             let mut binders: Vec<String> = Vec::new();
@@ -289,6 +308,7 @@ impl<'a> Gen<'a> {
             clauses.push(Clause { xtor: x.name.clone(), binders, body });
         }
         self.st = saved;
+        self.inst_stack = saved_stack;
         self.defs[idx].body = Some(Tm::New(clauses));
         idx
     }
@@ -385,7 +405,7 @@ impl<'a> Gen<'a> {
 
 pub fn gen_program(rng: &mut Rng, cfg: &FunGenCfg) -> GenProg {
     let mut g = Gen { rng, cfg, decls: vec![], pool: vec![], defs: vec![], st: DefSt { idx: 0, used: HashSet::new(), cost: 0, budget: 0, rec_left: 0, ctr: 0 },
-        feats: BTreeSet::new(), helpers: HashMap::new(), def_names: HashSet::new(), many_live_def: None };
+        feats: BTreeSet::new(), helpers: HashMap::new(), def_names: HashSet::new(), many_live_def: None, inst_stack: Vec::new() };
     g.gen_type_decls();
     g.build_pool();
     g.gen_signatures();
@@ -398,5 +418,5 @@ pub fn gen_program(rng: &mut Rng, cfg: &FunGenCfg) -> GenProg {
     let main_arity = g.defs[0].params.len();
     let features: Vec<&'static str> = g.feats.iter().copied().collect();
     let text = print_program(&ast, &style);
-    GenProg { text, main_arity, features, ast, style }
+    GenProg { text, main_arity, features, ast, style, cfg: cfg.clone() }
 }
